@@ -478,7 +478,8 @@ func ruleC13Order(cx *Ctx) {
 		if x == y {
 			return ordered(origin(calleeOf(x)), a, b, depth+1)
 		}
-		return instrDominates(x, y)
+		// the sweep may sit under `if withExpiration`: ordered means it can be followed by the eviction and never follows it
+		return instrDominates(x, y) || (canReach(x, y) && !canReach(y, x))
 	}
 	isSweep := func(in ssa.Instruction) bool { return isCallTo(in, de) }
 	isEvict := func(in ssa.Instruction) bool { return isCallTo(in, evN) }
